@@ -259,6 +259,7 @@ def generate(repo):
     facts['bq_cr_store'] = one_mo(mo_of(sk['bq_commit_read'], '_atomic_reader_pos', 'store'), 'commit_read store', notes)
     facts['bq_cr_load'] = one_mo(mo_of(sk['bq_commit_read'], '_atomic_reader_pos', 'load'), 'commit_read load', notes)
     cr = sk['bq_commit_read']
+    sk['bq_commit_read_atomics'] = [l.strip() for l in cr if 'ATOMIC' in l]
     guard = cr[0] if cr else ''
     facts['bq_publish_on_drain'] = bool(re.search(r'\|\|\s*\(?\s*_reader_pos == _writer_pos_cache', guard) or
                                         re.search(r'_writer_pos_cache == _reader_pos', guard))
